@@ -60,6 +60,10 @@ EXTRAS = [
     {"items": [{"kind": "var"}, {"kind": "value"}, {"kind": "calc", "inputs": [0], "seed": True, "user_seed": 1}, {"kind": "calc", "inputs": [2]}]},
     # a free-standing distribution node (no variable, `at` set by hand) next to ordinary variables
     {"items": [{"kind": "var"}, {"kind": "value"}, {"kind": "calc", "inputs": [0]}, {"kind": "bdist", "at": 2, "inputs": [1]}]},
+    # user names that CONTAIN "_model" (only the prefix "_model" is reserved); a bare root node
+    {"items": [{"kind": "var"}, {"kind": "calc", "inputs": [0], "name": "lin_model_rss"}, {"kind": "value", "name": "a_model"}]},
+    # two variables connected only through a var-less node that takes the upstream one by keyword
+    {"items": [{"kind": "var"}, {"kind": "calc", "inputs": [0], "kw": [True]}, {"kind": "wvar", "inputs": [1]}, {"kind": "value"}, {"kind": "dist", "var": 2, "inputs": [3], "kw": True}]},
     # a node wired directly to a variable's value node instead of to the variable
     {"items": [{"kind": "var"}, {"kind": "calc", "inputs": [0], "raw": [True]}, {"kind": "wvar", "inputs": [1]}, {"kind": "wvar", "inputs": [0, 2], "raw": [True, False]}]},
 ]
